@@ -751,3 +751,113 @@ theorem listSetH_spec (h : Heap) (hw : h.WF) (hv : HVal) (vs : List V) (F : List
       · omega
 
 end CifModel.Model.Heap
+
+namespace CifModel.Model.Heap
+open CifModel
+
+/-! ### clone onto an existing object (repaired order: build, then clean, then move) -/
+
+/-- **`cif_value_clone(src, &dst)` onto an existing object** — the aliasing cases included: because the copy is built
+    before the target is cleaned, *any* representation of the source in the heap (`hs`, `Fs` — it may lie inside the
+    target, `Fs ⊆ F`, or contain it) is still fully live while it is read; afterwards the target object represents the
+    source's value on fresh blocks, everything the target owned before is released (each block once), the scratch object
+    is released, and nothing else changes. -/
+theorem cloneOntoH_spec (h : Heap) (hw : h.WF) (t : Nat) (old : HVal) (vOld : V) (F : List Nat) (x : V)
+    (ht : h.cell t = some (.val old)) (hr : Rep h old vOld F) (hF : ∀ a, a ∈ F → a < h.next) (htlt : t < h.next)
+    (htF : t ∉ F) (hs : HVal) (Fs : List Nat) (hsrc : Rep h hs x Fs) (hFs : ∀ a, a ∈ Fs → a < h.next) :
+    Rep (buildNew h x).2 hs x Fs
+    ∧ ∃ h' new F', cloneOntoH (need vOld) h t x = some h' ∧ h'.cell t = some (.val new) ∧ Rep h' new x F' ∧ h'.WF
+      ∧ (∀ a, a ∈ F' → h.next ≤ a ∧ a < h'.next)
+      ∧ (∀ a, a < h.next → a ≠ t → h'.cell a = if a ∈ F then none else h.cell a)
+      ∧ (∀ a, h.next ≤ a → a < h'.next → a ∈ F' ∨ h'.cell a = none) := by
+  generalize hb : buildNew h x = r
+  obtain ⟨c, h1⟩ := r
+  obtain ⟨e1, new, Fn, hc, hrepn, hcF, hcl, hcu, hrange, hcover⟩ := buildNew_spec x h hw c h1 hb
+  refine ⟨Rep_congr h h1 x hs Fs (fun a ha => e1.frame a (hFs a ha)) hsrc, ?_⟩
+  have ht1 : h1.cell t = some (.val old) := by rw [e1.frame t htlt]; exact ht
+  have hr1 : Rep h1 old vOld F := Rep_congr h h1 vOld old F (fun a ha => e1.frame a (hF a ha)) hr
+  obtain ⟨h2, hcl2, c2⟩ := cleanVal_spec vOld h1 old F (need vOld) hr1 (Nat.le_refl _)
+  have ht2 : h2.cell t = some (.val old) := by rw [c2.2 t]; simp [htF, ht1]
+  obtain ⟨h3, hwr, hn3, hc3⟩ := write_spec h2 t _ (.val new) ht2
+  have hctne : c ≠ t := by omega
+  have hc3c : h3.cell c = some (.val new) := by
+    rw [hc3]; simp only [hctne, if_false]; rw [c2.2 c]
+    have : c ∉ F := fun hm => by have := hF c hm; omega
+    simp [this, hc]
+  obtain ⟨h4, hf4, hn4, hc4⟩ := free_spec h3 c _ hc3c
+  have hFnF : ∀ a, a ∈ Fn → a ∉ F ∧ a ≠ t ∧ a ≠ c := by
+    intro a ha
+    have := hrange a ha
+    exact ⟨fun hm => by have := hF a hm; omega, by omega, fun e => hcF (e ▸ ha)⟩
+  refine ⟨h4, new, Fn, ?_, ?_, ?_, ?_, ?_, ?_, ?_⟩
+  · simp [cloneOntoH, hb, read, hc, ht1, hcl2, hwr, hf4]
+  · rw [hc4]; have : t ≠ c := fun e => hctne e.symm
+    simp [this, hc3]
+  · apply Rep_congr h1 h4 x new Fn _ hrepn
+    intro a ha
+    obtain ⟨h1', h2', h3'⟩ := hFnF a ha
+    rw [hc4, hc3, c2.2 a]; simp [h1', h2', h3']
+  · intro a ha
+    rw [hn4, hn3, c2.1] at ha
+    rw [hc4, hc3, c2.2 a]
+    have h1' : a ≠ c := by omega
+    have h2' : a ≠ t := by have := e1.le; omega
+    simp only [h1', h2', if_false]
+    rw [e1.wf a ha]; split <;> rfl
+  · intro a ha
+    rw [hn4, hn3, c2.1]
+    exact hrange a ha
+  · intro a ha hne
+    have hac : a ≠ c := by omega
+    rw [hc4, hc3, c2.2 a]; simp only [hac, hne, if_false]
+    rw [e1.frame a ha]
+  · intro a h1' h2'
+    rw [hn4, hn3, c2.1] at h2'
+    rcases hcover a h1' h2' with hh | hh
+    · exact Or.inl hh
+    · right; rw [hc4]; simp [hh]
+
+/-! ### cif_map_get_keys -/
+
+/-- the original keys of a represented entry list, as the heap holds them -/
+theorem getKeysH_spec (h : Heap) (ents : List Nat) (es : List (Str × Str × V)) (F : List Nat)
+    (hr : RepEntries h ents es F) :
+    ∃ kos, getKeysH h ents = some (h.next, kos, (alloc h (.arr kos (kos.length + 1))).2)
+      ∧ kos.map (fun ko => h.cell ko) = (Value.mapKeys es).map (fun s => some (.str s))
+      ∧ (∀ ko, ko ∈ kos → ko ∈ F)
+      ∧ ∃ h'', free (alloc h (.arr kos (kos.length + 1))).2 h.next = some h'' ∧ h''.next = h.next + 1
+          ∧ ∀ a, h''.cell a = if a = h.next then none else h.cell a := by
+  have key : ∃ kos, origKeys h ents = some kos
+      ∧ kos.map (fun ko => h.cell ko) = (Value.mapKeys es).map (fun s => some (.str s)) ∧ ∀ ko, ko ∈ kos → ko ∈ F := by
+    induction es generalizing ents F with
+    | nil =>
+      simp only [RepEntries] at hr
+      obtain ⟨rfl, rfl⟩ := hr
+      exact ⟨[], rfl, rfl, fun _ hx => by cases hx⟩
+    | cons hd es ih =>
+      obtain ⟨k, ko, v⟩ := hd
+      obtain ⟨e, ents', Fe, F2, rfl, hre, hrest, _, rfl⟩ := (RepEntries_cons h ents k ko v es F).mp hr
+      obtain ⟨kos, hm, hmap, hsub⟩ := ih ents' F2 hrest
+      obtain ⟨hv, ka, koa, F1, he, hka, hkoa, _, _, _, _, _, _, hFe⟩ := hre
+      have hkoaFe : koa ∈ Fe := by
+        rcases hFe with ⟨hkk, rfl⟩ | ⟨_, rfl⟩
+        · subst hkk; simp
+        · simp
+      refine ⟨koa :: kos, ?_, ?_, ?_⟩
+      · simp [origKeys, read, he, hm]
+      · simp only [List.map_cons, Value.mapKeys, hkoa]
+        simp only [Value.mapKeys] at hmap
+        rw [hmap]
+      · intro x hx
+        rcases List.mem_cons.mp hx with rfl | hx'
+        · exact List.mem_append_left _ hkoaFe
+        · exact List.mem_append_right _ (hsub x hx')
+  obtain ⟨kos, hm, hmap, hsub⟩ := key
+  refine ⟨kos, by simp [getKeysH, hm, alloc], hmap, hsub, ?_⟩
+  obtain ⟨h'', hf, hn, hc⟩ := free_spec (alloc h (.arr kos (kos.length + 1))).2 h.next (.arr kos (kos.length + 1))
+    (by simp [alloc_cell])
+  refine ⟨h'', hf, by rw [hn]; rfl, fun a => ?_⟩
+  rw [hc a, alloc_cell]
+  split <;> rfl
+
+end CifModel.Model.Heap
